@@ -115,6 +115,11 @@ class CallMixin:
                 m = self.reg.ext_models.get(f.a)
                 if m is None:
                     m = self.reg.fn.get(f.a)
+                if m is None and f.a in ("itertools.chain", "chain") and not kwargs:
+                    # itertools.chain over iterables of known length: the concatenation (consumed eagerly, like generator expressions)
+                    parts = [self.concrete_items(st, a) for a in args]
+                    if all(p_ is not None for p_ in parts):
+                        return [(st, VTuple([x for p_ in parts for x in p_]))]
                 if isinstance(m, FnContract):
                     return self.apply_contract(st, m, args, kwargs, node)
                 if m is not None:
